@@ -40,7 +40,7 @@ impl Property for C03 {
     }
 
     fn cases(tier: Tier) -> u64 {
-        tier.pick(24_000, 1_500_000)
+        tier.pick(80_000, 1_500_000)
     }
 
     fn strategy(_tier: Tier) -> BoxedStrategy<Case> {
